@@ -43,6 +43,8 @@ ASSUMPTIONS = ['SQLite file database opened with timeout=0 (file-lock conflicts 
                'acquire/release protocol (holder tracking; an unavailable lock hands control to another actor or raises)',
                'a connection whose close() the plan refused is exempt from the leak rule and closed by the harness before the '
                'follow-up sessions; a connection whose connect() failed was never handed to Pony and is exempt',
+               'on a :memory: database (whose only connection is the database and is never closed) at most one rollback per run is '
+               'failed: a connection that can neither roll back nor be closed cannot be handed back clean by anybody',
                'other backends (PostgreSQL/MySQL/Oracle pools) cannot be run in this sandbox']
 SHARDS = {'quick': 4, 'thorough': 16}
 MIN_EVALS = {'quick': 3000, 'thorough': 12000}
@@ -153,7 +155,8 @@ def grid_cells():
             cells.append((script, cname, chain, False))
     for sh in memory_shapes():
         for cname, chain in CHAINS:
-            if cname in ('alone', 'rollback-before', 'next-call'):
+            if cname in ('alone', 'rollback-before'):   # never two failing rollbacks in a row: such a connection can be neither
+                                                       # cleaned nor (being the database itself) closed
                 cells.append(([sh], cname, chain, True))
     return cells
 
@@ -247,6 +250,8 @@ def run(ctx):
             for when, exc in primaries(call):
                 if chain and (exc != 'operational' or when != 'before'):
                     continue
+                if memory and chain and call['kind'] == 'rollback':
+                    continue          # would be two failing rollbacks in a row (see ASSUMPTIONS)
                 plan = [{'at': k, 'when': when, 'exc': exc}] + [dict(e) for e in chain]
                 nt = bool(call.get('probe'))
                 classes = ['part:grid', 'chain:' + cname, 'kind:' + call['kind'], 'shape:' + script[0]['kind'], 'when:' + when]
